@@ -96,12 +96,16 @@ structure OpState where
   corr : Array String := #[]
   mon : Array String := #[]
   nOps : Nat := 0
+  /-- the tokens of the last accepted `set` exactly as written (signed zeros: `-0` ≠ `0`) -/
+  lastSet : Option (List String) := none
 
 def natOrHuge (s : String) : Nat := (s.toNat?).getD 0
 
 def stepOp (sem : Sem PF PF (List Int) Int (List Int)) (names : List String)
     (items : List (Item String PF PF (List Int) Int)) (st : OpState) (op res : Array String) : OpState :=
-  let impl := joinToks res 1
+  -- the integer model has no signed zero: `-0` is compared as `0` here; that `params()` hands back the
+  -- very numbers that were applied - sign of zero included - is monitored on the tokens below
+  let impl := joinToks (res.map fun t => if t == "-0" then "0" else t) 1
   let n := st.model.x.length
   let check (st : OpState) (model spec : String) : OpState :=
     let st := if model == impl then st else
@@ -116,7 +120,9 @@ def stepOp (sem : Sem PF PF (List Int) Int (List Int)) (names : List String)
     | .ok m' =>
       -- spec: accepted iff the count matches; then the vector is stored unchanged
       let spec := if v.length == names.length then "ok" else s!"err IncorrectParameterCount {names.length} {v.length}"
-      check { st with model := m', specParams := if v.length == names.length then v else st.specParams } "ok" spec
+      let toks := (op.toList.drop 3).take (natAt op 2)
+      check { st with model := m', specParams := if v.length == names.length then v else st.specParams,
+                      lastSet := if v.length == names.length then some toks else st.lastSet } "ok" spec
     | .error e =>
       let spec := if v.length == names.length then "ok" else s!"err IncorrectParameterCount {names.length} {v.length}"
       check st (mErrStr e) spec
@@ -133,6 +139,12 @@ def stepOp (sem : Sem PF PF (List Int) Int (List Int)) (names : List String)
     let model := s!"ok {st.model.params.length}{ps st.model.params} | {st.model.names.length} {st.model.fns.length} {st.model.x.length} | {encN st.model.names}"
     let nfn := (items.filter Item.isFnLike).length
     let spec := s!"ok {st.specParams.length}{ps st.specParams} | {names.length} {nfn} {st.model.x.length} | {encN names}"
+    let st := match st.lastSet with
+      | some toks =>
+        let got := (res.toList.drop 3).take (natOrHuge (res.getD 2 ""))
+        if got == toks then st else
+          { st with mon := st.mon.push s!"op{st.nOps}:params()=[{" ".intercalate got}]:last-applied=[{" ".intercalate toks}]" }
+      | none => st
     check st model spec
   | _ => st
 
